@@ -651,7 +651,7 @@ def clean(pid, tier, replay):
     if replay:
         return engine.engine_replay(pid, replay)
     fams = _fams([dict(fam="clean", K=3, CH=6)], [dict(fam="clean", K=30, CH=40)], tier)
-    return engine.engine_check(pid, fams, tier, maxruns=2 if tier == "quick" else 4, props=["C18"])
+    return engine.engine_check(pid, fams, tier, maxruns=2 if tier == "quick" else 4, props=["C18"], cleanmodel=True)
 
 
 @reg("C20")
